@@ -3,6 +3,7 @@ package main
 import (
 	"fmt"
 	"strings"
+	"sync"
 	"go/token"
 	"go/types"
 	"math/big"
@@ -12,8 +13,11 @@ import (
 )
 
 var fileCache = map[string][]byte{}
+var fileCacheMu sync.Mutex
 
 func (p *Program) fileData(name string) []byte {
+	fileCacheMu.Lock()
+	defer fileCacheMu.Unlock()
 	if d, ok := fileCache[name]; ok {
 		return d
 	}
